@@ -4,6 +4,7 @@
    (C09Model.v) returns Ok of the value the naive per-sample expansion (C09Spec.v) defines. *)
 From V.lib Require Import Base.
 From V.c09 Require Import C09Model C09Spec C09BaseProofs C09SttsProofs C09CttsProofs C09StscProofs C09TrakProofs C09TimeProofs C09CacheProofs.
+From V.c09 Require Import C09BuildModel C09BuildCttsProofs C09BuildStscProofs.
 
 (* a concrete non-trivial consistent table set: 7 samples, 3 stts runs, ctts, 2 stsc entries over 3 chunks,
    explicit sizes, stco, stss, sdtp *)
@@ -154,3 +155,99 @@ Theorem C09_sample_description_id_refuted :
   S_sample_description_id sd_tb 3 = Some 2 /\ stsc_get_sample_description_id_pinned (t_stsc sd_tb) 3 = Panic.
 Proof. vm_compute. repeat split. Qed.
 Print Assumptions C09_sample_description_id_refuted.
+
+(* ================= tables built through the library's BUILDER methods (C09BuildModel.v) =================
+   The property quantifies over consistent sample tables however they were built.  A history is a list of
+   method calls (no bound on its length or on the rows per call); ctts_run / stsc_run fold the transcription of
+   the Go method over it, cache fields included.  A refused call (error return) leaves the box untouched. *)
+
+(* a 3-call history for each of the two boxes that have builder methods; they build the ctts / stsc of ex_tb *)
+Definition ex_ctts_calls : list (list N * list Z) := [([2], [0%Z]); ([], []); ([5], [(-3)%Z])].
+Definition ex_stsc_calls : list stsc_call := [SAdd 1 2 2; SSetSingle 1; SAdd 3 3 2].
+Example ex_histories :
+  ctts_run ctts_empty ex_ctts_calls = mkCtts [0; 2; 7] [0%Z; (-3)%Z] /\
+  t_ctts ex_tb = Some (ctts_run (ctts_decode []) ex_ctts_calls) /\
+  existsb ctts_call_ok ex_ctts_calls = true /\
+  stsc_table [] ex_stsc_calls = [(1, 2, 1); (3, 3, 2)] /\
+  t_stsc ex_tb = stsc_run (stsc_of_table []) ex_stsc_calls /\
+  forallb stsc_call_ok ex_stsc_calls = true /\
+  raw_ok (stsc_table [] ex_stsc_calls) = true /\ rows_ok (stsc_table [] ex_stsc_calls) (nchunks ex_tb) = true /\
+  sumN (chunk_counts (S_entries (stsc_table [] ex_stsc_calls)) (nchunks ex_tb)) = nsamples ex_tb /\
+  sumN (map fst ([] ++ ctts_table ex_ctts_calls)) = nsamples ex_tb.
+Proof. vm_compute. repeat split. Qed.
+
+(* CttsBox.AddSampleCountsAndOffset: after ANY history of calls on a decoded box (raw0 = [] : a box decoded
+   from an empty table) or on `&CttsBox{}` (as soon as one call was accepted), the box — EndSampleNr included —
+   is the one DecodeCttsSR builds from the concatenated table *)
+Theorem C09_builder_ctts : forall raw0 calls,
+  ctts_run (ctts_decode raw0) calls = ctts_decode (raw0 ++ ctts_table calls) /\
+  (existsb ctts_call_ok calls = true -> ctts_run ctts_empty calls = ctts_decode (ctts_table calls)).
+Proof. exact builder_ctts. Qed.
+Print Assumptions C09_builder_ctts.
+
+(* the cache invariant: EndSampleNr has one element more than the table, EndSampleNr[i] = (sum of the first i
+   counts) mod 2^32 (leading 0), SampleOffset = the offset column *)
+Theorem C09_ctts_cache : forall raw i, (i <= length raw)%nat ->
+  nth_error (ct_end (ctts_decode raw)) i = Some (u32 (sumN (firstn i (map fst raw)))) /\
+  length (ct_end (ctts_decode raw)) = S (length raw) /\ ct_off (ctts_decode raw) = map snd raw.
+Proof. exact ctts_cache. Qed.
+Print Assumptions C09_ctts_cache.
+
+(* GetCompositionTimeOffset on a box built by ANY history returns the expansion of the concatenated table *)
+Theorem C09_builder_ctts_query : forall raw0 calls,
+  let raw := raw0 ++ ctts_table calls in
+  sumN (map fst raw) < 4294967296 -> forall n, 1 <= n <= sumN (map fst raw) ->
+  exists x, nthN (expand_rl (map fst raw) (map snd raw)) (n - 1) = Some x /\
+            ctts_get_cto (ctts_run (ctts_decode raw0) calls) n = Ok x.
+Proof. exact builder_ctts_query. Qed.
+Print Assumptions C09_builder_ctts_query.
+
+(* StscBox.AddEntry / SetSingleSampleDescriptionID: after ANY history of calls with 1-based description ids on a
+   decoded box (raw0 = [] : `&StscBox{}`, stsc_of_table [] = stsc_empty), the box — FirstSampleNr of every entry
+   and the single/slice representation of the ids included — is the closed form of the table the history
+   describes, and that is also what DecodeStscSR builds from this table (all arithmetic uint32, wrap-around
+   included) *)
+Theorem C09_builder_stsc : forall raw0 calls,
+  forallb nz (sdis raw0) = true -> forallb stsc_call_ok calls = true ->
+  stsc_table raw0 calls <> [] ->
+  stsc_decode raw0 = Ok (stsc_of_table raw0) /\
+  stsc_run (stsc_of_table raw0) calls = stsc_of_table (stsc_table raw0 calls) /\
+  stsc_decode (stsc_table raw0 calls) = Ok (stsc_of_table (stsc_table raw0 calls)).
+Proof. exact builder_stsc. Qed.
+Print Assumptions C09_builder_stsc.
+
+(* the cache invariant without wrap-around: the entries are the naive recurrence, and
+   FirstSampleNr[i] = 1 + sum over the runs j < i of (firstChunk[j+1] - firstChunk[j]) * samplesPerChunk[j] *)
+Theorem C09_stsc_cache : forall raw, raw_ok raw = true ->
+  sc_entries (stsc_of_table raw) = S_entries raw /\
+  forall i e, nth_error (sc_entries (stsc_of_table raw)) i = Some e ->
+              first_sample e = 1 + sumN (firstn i (run_samples raw)).
+Proof. exact stsc_cache. Qed.
+Print Assumptions C09_stsc_cache.
+
+(* without 1-based ids the statement is false of the faithful model: AddEntry(…, 0) after an entry with another id
+   leaves SampleDescriptionID one element short, GetSampleDescriptionID of the new run's chunk panics
+   (DecodeStscSR refuses id 0, AddEntry does not look) *)
+Theorem C09_builder_stsc_zero_id_refuted :
+  let b := stsc_run stsc_empty [SAdd 1 2 1; SAdd 3 1 2; SAdd 4 1 0] in
+  sc_ids b = [1; 2] /\ lenN (sc_entries b) = 3 /\ stsc_get_sample_description_id b 4 = Panic /\
+  stsc_decode [(1, 2, 1); (3, 1, 2); (4, 1, 0)] = Err.
+Proof. vm_compute. repeat split. Qed.
+Print Assumptions C09_builder_stsc_zero_id_refuted.
+
+(* the bridge: table boxes built by ANY histories (ctts absent or built; stsc built) whose file-level tables are
+   consistent make `consistent` hold, so that EVERY query theorem above applies to API-built tables *)
+Theorem C09_builder_consistent : forall tb craw0 ccalls sraw0 scalls,
+  is_u32 (nsamples tb + 1) = true -> stts_ok tb = true -> stsz_ok tb = true -> offsets_ok tb = true ->
+  stss_ok tb = true -> sdtp_ok tb = true ->
+  (t_ctts tb = None \/
+   (t_ctts tb = Some (ctts_run (ctts_decode craw0) ccalls) /\
+    sumN (map fst (craw0 ++ ctts_table ccalls)) = nsamples tb)) ->
+  forallb nz (sdis sraw0) = true -> forallb stsc_call_ok scalls = true ->
+  t_stsc tb = stsc_run (stsc_of_table sraw0) scalls ->
+  raw_ok (stsc_table sraw0 scalls) = true -> rows_ok (stsc_table sraw0 scalls) (nchunks tb) = true ->
+  match stsc_table sraw0 scalls with (fc, _, _) :: _ => fc = 1 | [] => False end ->
+  sumN (chunk_counts (S_entries (stsc_table sraw0 scalls)) (nchunks tb)) = nsamples tb ->
+  consistent tb = true.
+Proof. exact builder_consistent. Qed.
+Print Assumptions C09_builder_consistent.
